@@ -379,6 +379,11 @@ def main():
                              **req.get('options', {}))
             elif action == 'snapshot':
                 pass
+            elif action == 'exec_sql':
+                from django.db import connection as _conn
+                with _conn.cursor() as _cur:
+                    for _sql, _params in req.get('statements', []):
+                        _cur.execute(_sql, _params)
             elif action == 'insert_rows':
                 _insert_rows(req.get('nrows', 2), m2m=bool(req.get('m2m_rows')))
             else:
